@@ -40,8 +40,9 @@ Fixpoint catch {S} (a : act S) : act S :=
 (* ------------------------------------------------------------------ state *)
 Record rbuf := { r_pgn : Z; r_size : Z; r_num : Z; r_next : Z; r_maxrec : option Z; r_data : list Z;
                  r_deadline : Z; r_src : Z; r_dst : Z }.
+(* s_nb: 'next_dt_not_before' (0 when the key is absent: .get(..., 0)) *)
 Record sbuf := { s_pgn : Z; s_prio : Z; s_size : Z; s_num : Z; s_data : list Z; s_state : Z;
-                 s_deadline : Z; s_src : Z; s_dst : Z; s_next : Z; s_waitcts : option Z }.
+                 s_deadline : Z; s_src : Z; s_dst : Z; s_next : Z; s_waitcts : option Z; s_nb : Z }.
 Definition ST_WAITING_CTS : Z := 0.
 Definition ST_SENDING_IN_CTS : Z := 1.
 Definition ST_SENDING_BM : Z := 2.
@@ -256,7 +257,7 @@ Definition process_request (i : nat) (sa dest : Z) (data : list Z) (n : node) (k
 (* ------------------------------------------------------------------ J1939-21: send_pgn *)
 Definition mk_sbuf (pgn prio size num : Z) (data : list Z) (st dl src dst : Z) (w : option Z) : sbuf :=
   {| s_pgn := pgn; s_prio := prio; s_size := size; s_num := num; s_data := data; s_state := st;
-     s_deadline := dl; s_src := src; s_dst := dst; s_next := 0; s_waitcts := w |}.
+     s_deadline := dl; s_src := src; s_dst := dst; s_next := 0; s_waitcts := w; s_nb := 0 |}.
 
 Definition num_packets (size : Z) : Z := if size mod 7 =? 0 then size / 7 else size / 7 + 1.
 
@@ -287,10 +288,14 @@ Definition send_pgn (n : node) (now dp pf ps prio sa : Z) (data : list Z) : act 
 (* ------------------------------------------------------------------ J1939-21: async_job_thread *)
 Definition upd_sbuf (b : sbuf) (st dl nx : Z) : sbuf :=
   {| s_pgn := s_pgn b; s_prio := s_prio b; s_size := s_size b; s_num := s_num b; s_data := s_data b;
-     s_state := st; s_deadline := dl; s_src := s_src b; s_dst := s_dst b; s_next := nx; s_waitcts := s_waitcts b |}.
+     s_state := st; s_deadline := dl; s_src := s_src b; s_dst := s_dst b; s_next := nx; s_waitcts := s_waitcts b; s_nb := s_nb b |}.
 Definition with_waitcts (b : sbuf) (w : option Z) : sbuf :=
   {| s_pgn := s_pgn b; s_prio := s_prio b; s_size := s_size b; s_num := s_num b; s_data := s_data b;
-     s_state := s_state b; s_deadline := s_deadline b; s_src := s_src b; s_dst := s_dst b; s_next := s_next b; s_waitcts := w |}.
+     s_state := s_state b; s_deadline := s_deadline b; s_src := s_src b; s_dst := s_dst b; s_next := s_next b; s_waitcts := w; s_nb := s_nb b |}.
+Definition with_nb (b : sbuf) (v : Z) : sbuf :=
+  {| s_pgn := s_pgn b; s_prio := s_prio b; s_size := s_size b; s_num := s_num b; s_data := s_data b;
+     s_state := s_state b; s_deadline := s_deadline b; s_src := s_src b; s_dst := s_dst b; s_next := s_next b;
+     s_waitcts := s_waitcts b; s_nb := v |}.
 
 (* data = buf['data'][offset:]; cut to 7 or pad with 255; insert(0, package+1) *)
 Definition dt_payload (data : list Z) (package : Z) : list Z :=
@@ -328,11 +333,13 @@ Fixpoint cts_burst (fuel : nat) (key now : Z) (n : node) (k : node -> act node) 
             match s_waitcts b with
             | None => Raise n E_Key
             | Some w =>
+                (* with a minimum interval configured, remember when the next DT may go out (also across a CTS) *)
+                let bn := match n_cmdt_iv n with Some iv => with_nb b (now + iv) | None => b end in
                 let '(b', brk) :=
-                  if package =? w then (upd_sbuf b ST_WAITING_CTS (now + tp21_T3) (package + 1), true)
+                  if package =? w then (upd_sbuf bn ST_WAITING_CTS (now + tp21_T3) (package + 1), true)
                   else match n_cmdt_iv n with
-                       | Some iv => (upd_sbuf b (s_state b) (now + iv) (package + 1), true)
-                       | None => (upd_sbuf b (s_state b) (s_deadline b) (package + 1), false)
+                       | Some iv => (upd_sbuf bn (s_state b) (now + iv) (package + 1), true)
+                       | None => (upd_sbuf bn (s_state b) (s_deadline b) (package + 1), false)
                        end in
                 Emit (set_snd n (tset (n_snd n) key b')) (OTx (tp21_dt (s_src b) (s_dst b) data))
                      (fun n' => if brk then k n' else cts_burst f key now n' k)
@@ -416,7 +423,7 @@ Definition process_tp_cm (prio sa dest : Z) (data : list Z) (now : Z) (n : node)
             let all := s_num b in
             let num1 := if num >? all then all else num in
             let num2 := if nextp + num1 >? all then all - nextp else num1 in
-            let b' := with_waitcts (upd_sbuf b ST_SENDING_IN_CTS now (s_next b)) (Some (s_next b + num2 - 1)) in
+            let b' := with_waitcts (upd_sbuf b ST_SENDING_IN_CTS (Z.max now (s_nb b)) (s_next b)) (Some (s_next b + num2 - 1)) in
             Done (wake (set_snd n (tset (n_snd n) h b'))) 0
       end
     else if control =? tp21_cm_EOM_ACK then
